@@ -27,7 +27,7 @@ import simos
 import simsql
 from core import Choices, RunResult
 
-OUTCOMES = ("ok", "ok", "ok", "raise", "none", "false", "wrong")
+OUTCOMES = ("ok", "ok", "ok", "raise", "none", "false", "wrong", "relabel")
 
 
 def gen(rng, tier, index):
@@ -158,7 +158,7 @@ def predict(plan, inp, names):
             return ("nc", "ERROR", me)
         if o == "none":
             return ("nc", "BUG", me)
-        if o == "false":
+        if o in ("false", "relabel"):
             return ("nc", "FALSE", me)
         if o == "wrong":
             # the next app in the chain rejects the type
@@ -307,7 +307,7 @@ def run(plan, tier="quick", real_pool=False) -> RunResult:
                     )
                 elif got_kind == "nc" and pred[1] != "ERROR" or (got_kind == "nc" and pred[2] != "load_unaligned"):
                     src = getattr(value, "source", None)
-                    wrong_step = any(st["outcomes"].get(stem) == "wrong" for st in plan["steps"])
+                    wrong_step = any(st["outcomes"].get(stem) in ("wrong", "relabel") for st in plan["steps"])
                     if not wrong_step and (src is None or os.path.basename(str(src)) != f"{stem}.fasta"):
                         res.add(
                             f"C14.source-lost/{pred[1]}",
